@@ -27,6 +27,23 @@ Definition texts (k : nat) (sl : list section) : list str := map fst (filter (is
 Lemma filter_isC_osec k l : filter (isC k) (osec l) = [].
 Proof. destruct l; reflexivity. Qed.
 
+(* adjacency *)
+Definition unlab (x : section) : bool := match snd x with None => true | Some _ => false end.
+Definition hd_is (f : section -> bool) (l : list section) : bool := match l with x :: _ => f x | [] => false end.
+
+(* no two adjacent sections both satisfy f *)
+Fixpoint no_adj (f : section -> bool) (l : list section) : Prop :=
+  match l with
+  | x :: r => (f x = true -> hd_is f r = false) /\ no_adj f r
+  | [] => True
+  end.
+
+
+Lemma no_adj_osec_cons l x r : unlab x = false -> no_adj unlab (x :: r) -> no_adj unlab (osec l ++ x :: r).
+Proof.
+  intros Hx H. destruct l; [exact H|]. rewrite osec_cons. simpl. split; [intros _; exact Hx|exact H].
+Qed.
+
 Section Pipeline.
 Variables isalpha isdigit isupper : N -> bool.
 Variable lower_c : N -> str.
